@@ -64,6 +64,35 @@ def special_sources():
     # equal code objects in different scopes of one line (CPython merges equal code objects only within one scope)
     add('equal-code-across-scopes', "def f():\n    return (lambda: (lambda: 0)), (lambda: 0)\n")
     add('equal-code-across-scopes-2', "d = {'lazy': lambda: (lambda: None), 'eager': lambda: None}\ne = [(lambda: (lambda: (lambda: 1))), (lambda: (lambda: 1)), (lambda: 1)]\n")
+    # ladders of nested ifs whose exits are consecutive one-instruction statements around the 255/256 operand
+    # boundary: the jump-size fix point needs one more round per level (only normalized / hand-built data recompute it)
+    for depth in (3, 4, 5):
+        for extra in (0, 1):
+            fns = []
+            for pad in range(45, 130):
+                conds = ['c%d' % i for i in range(depth + 1)]
+                dels = ['d%d' % i for i in range(2, depth + 1)]
+                extras = ['e%d' % i for i in range(extra)]
+                lines = ['def f%d(%s):' % (pad, ', '.join(conds + dels + extras + ['a', 'b']))]
+                for i, c in enumerate(conds):
+                    lines.append('    ' * (i + 1) + 'if %s:' % c)
+                body = '    ' * (depth + 2)
+                lines += [body + 'del %s' % e for e in extras]
+                lines += [body + 'a = b'] * pad
+                for i in range(depth, 1, -1):
+                    lines.append('    ' * (i + 1) + 'del d%d' % i)
+                lines.append('        return (1, a)')
+                lines.append('    return (2, b)')
+                fns.append('\n'.join(lines))
+            add('ladder-%d-%d' % (depth, extra), '\n'.join(fns) + '\n')
+    # two statements on one line where the first one is exactly a multiple of 255 bytes long (zero-line-delta rows
+    # after full (255, 0) rows on 3.7 / 3.8), and line changes right after such a span
+    fns = []
+    for n in list(range(120, 132)) + list(range(248, 258)) + list(range(374, 384)) + list(range(502, 512)):
+        names = ', '.join('a' for _ in range(n))
+        fns.append('def s%d():\n    x = [%s]; y = 1\n    return x\n' % (n, names))
+        fns.append('def t%d():\n    x = [%s]\n    y = 1\n    z = [%s]\n\n\n    return x\n' % (n, names, names))
+    add('span-255', '\n'.join(fns))
     add('nan-tuple', "a = (1e999-1e999, 1); b = (1e999-1e999, 1); c = -(1e999-1e999)\n")
     add('zeros', "a = 0.0; b = -0.0; c = 0; d = False; e = 0j; f = -0j; g = (0.0, -0.0); h = (-0.0, 0.0)\n")
     add('ones', "a = 1; b = 1.0; c = True; d = (1, 1.0, True); e = 1+0j\n")
